@@ -134,8 +134,21 @@ def roundtrip_file(src: str, module_name: str) -> dict:
         tc = deser.deserialize_function(node).test_case
         if tc.size() > 0:
             nonempty.append(tc)
-        orig_fn = ast.parse(cst.Module(body=[node.with_changes(decorators=())]).code).body[0]
-        new_body = ast.parse(render_testcase(tc)).body
+        norm_code = cst.Module(body=[node.with_changes(decorators=())]).code
+        try:
+            orig_fn = ast.parse(norm_code).body[0]
+            new_body = ast.parse(render_testcase(tc)).body
+        except SyntaxError as e:
+            # SUT-reference normalisation (or the parsed test case) is no longer valid Python
+            import re as _re
+
+            kind = "keyword" if _re.search(r"[(,]\s*\w+\.\w+\s*=[^=]", norm_code) else "other"
+            funcs.append({"name": node.name.value, "asserts": 0, "lifted": 0, "statements": 0, "shapes": {},
+                          "diffs": [(f"roundtrip:normalised-code-invalid:{kind}",
+                                     f"after SUT-reference normalisation the function is not valid Python: {e.msg}: "
+                                     f"`{(e.text or '').strip()[:120]}`")],
+                          "orig": norm_code.splitlines()[1:], "new": render_testcase(tc).splitlines()})
+            continue
         diffs = classify(orig_fn.body, new_body, sut_names)
         n_assert = sum(isinstance(n, ast.Assert) for n in orig_fn.body)
         lifted = sum(len(s.assertions) for s in tc.statements())
@@ -336,7 +349,12 @@ def tc_cases(src: str, module_name: str) -> list[dict]:
             continue
         codes = Codes()
         tc = deser.deserialize_function(node).test_case
-        fn = ast.parse(cst.Module(body=[node.with_changes(decorators=())]).code).body[0]
+        try:
+            fn = ast.parse(cst.Module(body=[node.with_changes(decorators=())]).code).body[0]
+            for st in tc.statements():
+                ast.parse(cst.Module(body=[st.node]).code)
+        except SyntaxError:
+            continue   # reported by roundtrip_file as roundtrip:normalised-code-invalid
         items, dumps = [], []
         for i, n in enumerate(fn.body):
             if isinstance(n, ast.Pass):
